@@ -116,6 +116,7 @@ func banEdge(field string, keyOK func(k ssa.Value) bool) EdgePred {
 }
 
 func checkC03(p *Prog, r *Report) {
+	liftProg = p
 	a := ResolveAnchors(p)
 	if !anchorCheck(a, r) {
 		return
@@ -129,7 +130,48 @@ func checkC03(p *Prog, r *Report) {
 	ruleC03Tag(p, a, ba, r)
 	ruleC03Filter(p, a, ba, r)
 	ruleC03Set(p, a, r)
+	ruleC03Exec(p, a, r)
 	ruleC03Freeze(p, a, ba, r)
+}
+
+// R-C03-EXEC: templates that tags execute were compiled by the referring set: a node field assigned from the set's
+// From* at parse time, or the fresh result of such a call — never an object taken from package-level state.
+func ruleC03Exec(p *Prog, a *Anchors, r *Report) {
+	r.Begin("R-C03-EXEC", "every template a tag executes is one the referring set compiled for it (parse-time node field or fresh From* result), never one taken from state shared between sets", 2)
+	entry := map[*ssa.Function]bool{}
+	for _, f := range a.ExecEntries {
+		entry[f] = true
+	}
+	entry[a.ExecCore] = true
+	p.EachInstr(func(f *ssa.Function, in ssa.Instruction) {
+		ci, ok := in.(ssa.CallInstruction)
+		if !ok || ci.Common().StaticCallee() == nil || !entry[ci.Common().StaticCallee()] {
+			return
+		}
+		top := topLevel(f)
+		if recv := top.Signature.Recv(); recv != nil && structOf(recv.Type()) != nil {
+			n := structOf(recv.Type()).Obj().Name()
+			if n == "Template" || n == "TemplateSet" {
+				return // the API itself (variants calling the funnel, Render* shortcuts)
+			}
+		}
+		key := p.FuncName(f) + ":" + ci.Common().StaticCallee().Name()
+		rs := p.Roots(ci.Common().Args[0])
+		bad := ""
+		for _, rt := range rs {
+			switch rt.Kind {
+			case RGlobal:
+				bad = "package-level state " + rt.Name
+			case RUnknown:
+				bad = "a value of unknown origin (" + rt.Name + ")"
+			}
+		}
+		if bad != "" {
+			r.Bad(key, p.InstrPos(in), "the executed template comes from %s: a template compiled by another set (with other bans) can be run", bad)
+		} else {
+			r.OK(key, p.InstrPos(in), "executed template: %s", rootsString(rs))
+		}
+	})
 }
 
 // R-C03-TAG: every invocation through the parser field of a registry entry is dominated by the ban lookup of
@@ -225,9 +267,28 @@ func isParserTemplateSet(mapLoad ssa.Value) bool {
 
 // isReferringSet: v denotes the set of the template being compiled/executed:
 // load <Parser|ExecutionContext>.template.set, or the receiver of a *TemplateSet method.
-func isReferringSet(v ssa.Value) bool {
+func isReferringSet(v ssa.Value) bool { return isReferringSetD(v, 0) }
+
+var liftProg *Prog // set by checkC03/C11 so that helper parameters can be resolved at their call sites
+
+func isReferringSetD(v ssa.Value, depth int) bool {
 	if pa, ok := v.(*ssa.Parameter); ok {
-		return pa.Parent().Signature.Recv() != nil && pa == pa.Parent().Params[0] && structOf(pa.Type()) != nil && structOf(pa.Type()).Obj().Name() == "TemplateSet"
+		if pa.Parent().Signature.Recv() != nil && pa == pa.Parent().Params[0] && structOf(pa.Type()) != nil && structOf(pa.Type()).Obj().Name() == "TemplateSet" {
+			return true
+		}
+		// a helper that is handed the set: every (static) caller must pass the referring set
+		if liftProg != nil && depth < 3 && liftProg.staticOnly(pa.Parent(), nil) {
+			idx := indexOfParam(pa.Parent(), pa)
+			all := true
+			for _, e := range liftProg.CG.Nodes[pa.Parent()].In {
+				args := callArgs(e.Site.Common())
+				if idx >= len(args) || !isReferringSetD(args[idx], depth+1) {
+					all = false
+				}
+			}
+			return all
+		}
+		return false
 	}
 	tplv, n, fld := fieldLoadBase(v)
 	if n == nil || n.Obj().Name() != "Template" || fld != "set" {
